@@ -273,11 +273,11 @@ class Model:
 class Refs:
     """Function references and arg hashes for the op alphabet."""
 
-    def __init__(self, cluster):
+    def __init__(self, cluster, table=None):
         from twosigma.memento.reference import FunctionReference, FunctionReferenceWithArguments
         from . import sfuncs
 
-        table = FUNCS_NAMED if cluster == "c" else FUNCS_DEFAULT
+        table = table or (FUNCS_NAMED if cluster == "c" else FUNCS_DEFAULT)
         self.refs = [
             FunctionReference(getattr(sfuncs, name), cluster_name=("c" if cluster == "c" else None),
                               version=ver)
